@@ -503,6 +503,11 @@ class CNF(SimpleSequence[Clause]):
         # TODO: Describe this function's purpose.
         in_binary =  int_to_binary(k)
         sum_bits = self.pop_count(in_list, len(in_binary)+1)
+        if len(in_binary) > len(sum_bits):
+            # `k` needs more bits than the count of `in_list` can ever have, so
+            # the assertion is unsatisfiable (don't silently drop k's high bits).
+            self.prepend(CNF([Clause(sum_bits[0]), Clause(~sum_bits[0])]))
+            return
         # Add zero padding to the left.
         in_binary.reverse()
         left_padded: BinaryNumber = in_binary[:len(sum_bits)]
